@@ -414,3 +414,74 @@ def native_identity_rescale_check():
 
 
 NibabelImageToPrecomputed.replay = lambda self, model, cfg, ob_name: native_identity_rescale_check()
+
+
+def native_mapping_check():
+    """int16 NIfTI files with and without header scaling, converted with several --input-min/--input-max
+    choices to uint8 and float32: every stored voxel against the documented value mapping computed with
+    exact fractions (round half to even, saturate)"""
+    import contextlib
+    import io
+    import json
+    import os
+    import struct
+    import tempfile
+    from fractions import Fraction
+    from neuroglancer_scripts import accessor, precomputed_io, volume_reader
+    raw = (np.arange(24, dtype=np.int16).reshape(2, 3, 4) * 3 - 20)
+
+    def rhe(fr):
+        fl = fr.numerator // fr.denominator
+        d = fr - fl
+        return fl if d < Fraction(1, 2) else (fl + 1 if d > Fraction(1, 2) else (fl if fl % 2 == 0 else fl + 1))
+    for slope, inter in ((1.0, 0.0), (2.0, 3.0), (0.5, -1.0)):
+        for imin, imax in ((None, None), (None, 50), (-10, 40), (0, 255), (-5, 0)):
+            for out in ("uint8", "float32"):
+                for ignore in (False, True):
+                    with tempfile.TemporaryDirectory() as td, contextlib.redirect_stderr(io.StringIO()):
+                        p = os.path.join(td, "a.nii")
+                        _nib.save(_nib.Nifti1Image(raw, np.eye(4)), p)
+                        b = bytearray(open(p, "rb").read())
+                        b[112:120] = struct.pack("<ff", slope, inter)
+                        open(p, "wb").write(b)
+                        dest = os.path.join(td, "out")
+                        os.makedirs(dest)
+                        info = {"type": "image", "data_type": out, "num_channels": 1, "scales": [
+                            {"key": "full", "size": [2, 3, 4], "chunk_sizes": [[64, 64, 64]], "resolution": [1e6, 1e6, 1e6],
+                             "voxel_offset": [0, 0, 0], "encoding": "raw"}]}
+                        json.dump(info, open(os.path.join(dest, "info"), "w"))
+                        label = f"int16 file scl_slope={slope} scl_inter={inter}, input_min={imin} input_max={imax} ignore_scaling={ignore} -> {out}"
+                        try:
+                            volume_reader.volume_file_to_precomputed(p, dest, ignore_scaling=ignore, input_min=imin, input_max=imax)
+                            io_ = precomputed_io.get_IO_for_existing_dataset(accessor.get_accessor_for_url(dest))
+                            got = io_.read_chunk("full", (0, 2, 0, 3, 0, 4))[0].transpose(2, 1, 0)
+                        except Exception as e:
+                            return {"reproduced": True, "detail": f"{label}: {type(e).__name__} {e}"}
+                    s_, i_ = (Fraction(1), Fraction(0)) if ignore else (Fraction(slope), Fraction(inter))
+                    for idx in np.ndindex(raw.shape):
+                        v = Fraction(int(raw[idx])) * s_ + i_
+                        if imax is not None:
+                            lo = Fraction(imin if imin is not None else 0)
+                            omin, omax = (Fraction(0), Fraction(255)) if out == "uint8" else (Fraction(0), Fraction(1))
+                            v = (v - lo) * (omax - omin) / (Fraction(imax) - lo) + omin
+                        if out == "uint8":
+                            want = min(max(rhe(v), 0), 255)
+                            ok = int(got[idx]) == want
+                            fl = v.numerator // v.denominator
+                            if not ok and abs(v - fl - Fraction(1, 2)) < Fraction(1, 10 ** 6):
+                                # within float error of a tie (the scaling is computed in float64): either neighbour
+                                ok = int(got[idx]) in (min(max(fl, 0), 255), min(max(fl + 1, 0), 255))
+                        else:
+                            want = float(v)
+                            ok = abs(float(got[idx]) - want) <= 1e-5 * max(1.0, abs(want))
+                        if not ok:
+                            return {"reproduced": True, "detail": f"{label}: raw value {int(raw[idx])} stored as {got[idx]} instead of {want}"}
+    return {"reproduced": False, "detail": "every stored voxel follows the documented value mapping"}
+
+
+def _c01_replay(self, model, cfg, ob_name):
+    r = native_identity_rescale_check()
+    return r if r["reproduced"] else native_mapping_check()
+
+
+NibabelImageToPrecomputed.replay = _c01_replay
